@@ -51,7 +51,15 @@ pub fn judge_sys(sys: &Sys, step: &WStep, sandbox_dev: u64, root_path: &str) -> 
     // rule 5: no legacy path syscalls, with literal diagnostic exceptions
     if d.legacy {
         let p = sys.paths.first().map(|p| p.0.clone()).unwrap_or_default();
-        if sys.name == "readlink" && (p.starts_with(b"/proc/thread-self/fd/") || p == b"/proc/thread-self/cwd" || p.starts_with(b"/proc/self/fd/")) {
+        // the same diagnostic through the pre-3.17 spelling of thread-self, which the
+        // library falls back to when its probe of /proc/thread-self fails
+        let task_spelling = p.strip_prefix(b"/proc/self/task/").map(|r| {
+            let mut it = r.splitn(2, |&c| c == b'/');
+            let tid = it.next().unwrap_or(b"");
+            let rest = it.next().unwrap_or(b"");
+            is_digits(tid) && (rest == b"cwd" || rest.strip_prefix(b"fd/").map(is_digits).unwrap_or(false))
+        });
+        if sys.name == "readlink" && (p.starts_with(b"/proc/thread-self/fd/") || p == b"/proc/thread-self/cwd" || p.starts_with(b"/proc/self/fd/") || task_spelling == Some(true)) {
             return Ok("diag-readlink");
         }
         return bad("legacy-syscall", "path syscall without directory descriptor");
@@ -342,12 +350,91 @@ pub fn check(case: &WCase, stats: &mut Stats) -> Result<(), Fail> {
     }
 }
 
+/// The same workload with one system call failing: the error paths (retries,
+/// fall-backs, clean-up) are held to the same discipline.
+#[derive(Clone, Debug, serde::Serialize, serde::Deserialize)]
+pub struct FaultedCase {
+    pub w: WCase,
+    /// which of the workload's in-call system calls fails (selector over the un-faulted count)
+    pub at: u16,
+    pub errno: i32,
+}
+
+const FAULT_ERRNOS: [i32; 6] = [libc::EINTR, libc::EAGAIN, libc::ENOMEM, libc::EMFILE, libc::EIO, libc::ENOSYS];
+
+pub fn faulted_child(case: &FaultedCase) -> (WReport, Option<String>) {
+    use std::sync::atomic::{AtomicUsize, Ordering};
+    use std::sync::Arc;
+    let plain = run_workload(&case.w, Policy { observe: true, kinds: false, ..Policy::default() }, "c05f0", false);
+    let n: usize = plain.steps.iter().filter_map(|s| s.call.as_ref()).map(|c| c.trace.len()).sum();
+    if n == 0 {
+        return (plain, None);
+    }
+    let target = crate::gen::pick(case.at, n);
+    let seen = Arc::new(AtomicUsize::new(0));
+    let hit: Arc<std::sync::Mutex<Option<String>>> = Arc::new(std::sync::Mutex::new(None));
+    let (seen2, hit2, errno) = (seen.clone(), hit.clone(), case.errno);
+    let hook: Hook = Box::new(move |sys: &Sys, _c: &mut CallRec| {
+        let k = seen2.fetch_add(1, Ordering::SeqCst);
+        // the kernel releases a descriptor whatever close() says
+        if k == target && !matches!(sys.name.as_str(), "close" | "dup" | "dup2" | "dup3") {
+            *hit2.lock().unwrap() = Some(sys.short());
+            return Action::Errno(errno);
+        }
+        Action::Continue
+    });
+    let policy = Policy { observe: true, kinds: true, check_cloexec: true, hook: Some(hook), ..Policy::default() };
+    let rep = run_workload(&case.w, policy, "c05f1", false);
+    let h = hit.lock().unwrap().clone();
+    (rep, h)
+}
+
+pub fn check_faulted(case: &FaultedCase, stats: &mut Stats) -> Result<(), Fail> {
+    match run_in_child(120.0, || faulted_child(case)) {
+        ChildOut::Ok((rep, hit)) => {
+            if let Some(h) = &hit {
+                stats.class(&format!("fault-injected:{}", errno_name(case.errno)));
+                stats.class_sample(&format!("fault:{}:{}", errno_name(case.errno), h.split('(').next().unwrap_or("")), || json!({"injected": format!("{} =! {}", h, errno_name(case.errno)), "kcfg": case.w.kcfg.name()}));
+            }
+            judge(&case.w, &rep, stats).map_err(|f| match f {
+                Fail::Violation(mut v) => {
+                    v.check = "discipline-under-faults".into();
+                    v.signature = format!("{}:after-fault", v.signature);
+                    v.message = format!("{}\n  with one failing system call: {} =! {}", v.message, hit.clone().unwrap_or_default(), errno_name(case.errno));
+                    // the replay needs the whole workload up to that step and the fault
+                    let w: WCase = serde_json::from_value(v.case.clone()).unwrap_or_else(|_| case.w.clone());
+                    let _ = w;
+                    v.case = serde_json::to_value(case).unwrap();
+                    Fail::Violation(v)
+                }
+                other => other,
+            })
+        }
+        ChildOut::Crashed { sig } => Err(Fail::Harness(format!("child died with signal {} (not a C05 matter)", sig))),
+        ChildOut::Exit { code, stderr_hint } => Err(Fail::Harness(format!("child exit {}: {}", code, stderr_hint))),
+        ChildOut::Timeout => Err(Fail::Harness("child timed out".into())),
+    }
+}
+
+fn faulted_strategy() -> impl proptest::strategy::Strategy<Value = FaultedCase> {
+    use proptest::prelude::*;
+    (wcase(4), any::<u16>(), 0usize..FAULT_ERRNOS.len()).prop_map(|(w, at, e)| FaultedCase { w, at, errno: FAULT_ERRNOS[e] })
+}
+
 fn run_lane(ctx: &Ctx, lr: &mut LaneResult) {
     let n = ctx.tier.pick(8000, 80000);
     search(ctx, lr, "discipline", n, wcase(8), &check);
+    if lr.violations.is_empty() {
+        search_opts(ctx, lr, "discipline-under-faults", ctx.tier.pick(4000, 40000), faulted_strategy(), &check_faulted, 60);
+    }
 }
 
-fn replay(_ctx: &Ctx, _check: &str, case: &Value) -> Result<(), Fail> {
+fn replay(_ctx: &Ctx, check_name: &str, case: &Value) -> Result<(), Fail> {
+    if check_name == "discipline-under-faults" {
+        let case: FaultedCase = serde_json::from_value(case.clone()).map_err(|e| Fail::Harness(format!("bad case: {}", e)))?;
+        let mut s = Stats::default();
+        return check_faulted(&case, &mut s);
+    }
     let case: WCase = serde_json::from_value(case.clone()).map_err(|e| Fail::Harness(format!("bad case: {}", e)))?;
     let mut s = Stats::default();
     check(&case, &mut s)
@@ -356,7 +443,7 @@ fn replay(_ctx: &Ctx, _check: &str, case: &Value) -> Result<(), Fail> {
 pub const PROP: Prop = Prop {
     id: "C05",
     level: "exploration",
-    rule: "generated tree x sequence of 1-8 library calls (every Root operation through Rust and C API, Root::open, try_clone, resolve+reopen, ProcfsHandle open/open_follow/readlink and pathrs_proc_*) x resolver flags x six kernel configurations (openat2 / fsopen / open_tree answered ENOSYS by seccomp), first-use initialisation included; every system call the library thread makes inside a call is reported by a seccomp user-notification supervisor (number, dirfd and what it refers to by fstat+fstatfs, path bytes, flags, openat2 how) and judged by the discipline predicate (single component, never followed, RESOLVE masks, white-listed bootstrap shapes, close-on-exec requested and observed, O_NOCTTY, no legacy syscalls). evaluations = judged syscalls; non-trivial = path-taking syscalls on the tree or on procfs; distinct by (syscall, flag word, path shape, operation, rule)",
+    rule: "generated tree x sequence of 1-8 library calls (every Root operation through Rust and C API, Root::open, try_clone, resolve+reopen, ProcfsHandle open/open_follow/readlink and pathrs_proc_*) x resolver flags x six kernel configurations (openat2 / fsopen / open_tree answered ENOSYS by seccomp), first-use initialisation included; every system call the library thread makes inside a call is reported by a seccomp user-notification supervisor (number, dirfd and what it refers to by fstat+fstatfs, path bytes, flags, openat2 how) and judged by the discipline predicate (single component, never followed, RESOLVE masks, white-listed bootstrap shapes, close-on-exec requested and observed, O_NOCTTY, no legacy syscalls). A second driver repeats workloads of 1-4 calls with ONE system call (selected over the un-faulted trace) failing with EINTR / EAGAIN / ENOMEM / EMFILE / EIO / ENOSYS and judges the faulted execution by the same predicate (retries, fall-backs and clean-up are executions too). evaluations = judged syscalls; non-trivial = path-taking syscalls on the tree or on procfs; distinct by (syscall, flag word, path shape, operation, rule)",
     assumptions: &[
         "the seccomp filter table lists every path-taking and descriptor-creating syscall (legacy spellings included); a syscall outside the table would not be seen",
         "what a dirfd refers to is decided by the supervisor's own fstat/fstatfs of the shared descriptor table at the moment of the call",
